@@ -115,9 +115,10 @@ def _encode_enum(buffer: _Buffer, fcp: FcpV2, type: EnumType, data: Any) -> None
 
 
 def _encode_str(buffer: _Buffer, fcp: FcpV2, type: StringType, data: Any) -> None:
-    _encode_builtin_unsigned(buffer, UnsignedType("u32"), len(data))
-    for x in data:
-        _encode(buffer, fcp, UnsignedType("u8"), ord(x))
+    payload = data.encode("utf-8")
+    _encode_builtin_unsigned(buffer, UnsignedType("u32"), len(payload))
+    for x in payload:
+        _encode(buffer, fcp, UnsignedType("u8"), x)
 
 
 def _encode_struct(
@@ -219,7 +220,7 @@ def _decode_enum(buffer: _Buffer, fcp: FcpV2, type: EnumType) -> int:
 
 def _decode_str(buffer: _Buffer, type: StringType) -> str:
     len = _decode_builtin_unsigned(buffer, UnsignedType("u32"))
-    return bytearray(buffer.read_bytes(len)).decode("ascii")
+    return bytearray(buffer.read_bytes(len)).decode("utf-8")
 
 
 def _decode_array(buffer: _Buffer, fcp: FcpV2, type: ArrayType) -> List[Any]:
